@@ -14,8 +14,10 @@ package main
 import (
 	"encoding/json"
 	"fmt"
+	"runtime"
 	"strings"
 	"sync"
+	"time"
 
 	"github.com/pion/webrtc/v4"
 	"github.com/pion/webrtc/v4/internal/verifhook"
@@ -92,15 +94,28 @@ func c05StatusCode(st string, worker bool) int {
 func c05Execute(in c05In) *c05Trace {
 	n := len(in.Progs)
 	tr := &c05Trace{waiterOf: map[int]int{}}
+	var ops *webrtc.VerifOperations
 	s := NewSched()
 	s.Grace = 0
 	defer s.Close()
+	// before the next run installs its handler, every goroutine of this run
+	// must have ended (or be blocked for good): let them run free and wait
+	defer func() {
+		s.freeAll()
+		deadline := time.Now().Add(robustDeadline)
+		for {
+			if _, busy, _ := ops.Snapshot(); !busy || time.Now().After(deadline) {
+				break
+			}
+			runtime.Gosched()
+		}
+		waitClientsGone(s, n)
+	}()
 
 	var mu sync.Mutex // guards the logs below (only one thread runs at a time; the lock is for the race detector)
 	var ranLog []int
 	running, maxRunning := 0, 0
 	var pending *c05Op // the op handed to Enqueue during the current step
-	var ops *webrtc.VerifOperations
 
 	var enqueue func(depth int)
 	enqueue = func(depth int) {
